@@ -186,6 +186,20 @@ CHECKS["C07"] = dict(
     note=TRUST + "atomic grids by the representation C05 establishes; concatenation defined by segment offsets; atom-in-molecule weights are C06; "
          "fan-out for two atoms; recorded finding: preset angular pruning next to close large-radius neighbours (end-to-end clause).",
     technique="contract-based deductive verification: AST symbolic execution with a loop contract over a list of symbolic length (functional cut point), reduction matching, recording callee contracts, z3; bounded native layer as labelled stand-in")
+CHECKS["C16"] = dict(
+    category="proof",
+    text="What the library owns around the numerical solvers is proved: _build_core_density under a loop contract (sum of normalised Gaussians at "
+         "every grid point, any number of primitives); solve_poisson_robust (1-2 atoms instantiated; loader, core density, plain solver, Coulomb "
+         "potential and NNLS fit through recording contracts): the plain solver receives the caller's grid/transform/keywords and rho minus the core "
+         "densities (resp. the fit's residual), the returned callable is core + fit + numerical potential at every point and on repeated "
+         "evaluation, each atom's potential uses the same parameters and centre as its subtracted density, the caller's density is not "
+         "written, argument validation. The accuracy statements of the property (BVP/IVP solutions against closed-form potentials of s/p/d/f "
+         "Gaussians, linearity, option matrix, exact cancellation, sum-over-atoms identity) rest on SciPy's ODE solver and splines and are "
+         "decided by the bounded layer only; three recorded findings.",
+    design="8/C16",
+    note=TRUST + "solve_poisson_bvp/ivp, splines, harmonics, nnls are not proved (assumed inside the composition proof, bounded natively); "
+         "coulomb_potential is the potential of its normalised Gaussians (C17).",
+    technique="contract-based deductive verification of the composition (AST symbolic execution with recording callee contracts, loop contract, z3); bounded closed-form oracles for the numerical solvers as labelled stand-in")
 BOUNDED_ONLY = {
     "C09": ("8/C09", "band-limited decomposition/interpolation on atomic grids: angular integration, radial-component splines through knots, interpolant reproduces grid values, derivative self-consistency, polynomial reproduction, molecular interpolation"),
     "C07": ("8/C07", "molecular grid = weighted concatenation of atomic grids: index table, segments, weights = atweights x aim, views with store on/off, fan-out of from_size/from_preset/from_pruned against hand-built grids, default radial grids, end-to-end 1% clause on presets"),
